@@ -1,26 +1,26 @@
 SPECIFICATION Spec
 CONSTANTS
   MinClasses = 1
-  MaxClasses = 3
+  MaxClasses = 2
   MroOnly = FALSE
   AscBases = FALSE
-  MaxOwn = 2
+  MaxOwn = 1
   MaxHard = 1
   MaxPop = 1
-  PopClasses = 3
-  AttrClasses = 3
+  PopClasses = 2
+  AttrClasses = 2
   B1 = 4
-  B2 = 4
+  B2 = 3
   B3 = 2
   B4 = 0
   B5 = 0
-  MaxChain = 3
+  MaxChain = 2
   FnOwn = 1
   BFn = 4
-  EmitAllUpTo = 1
-  Sel = 60
-  CondSel = 12
-  AltMode = 0
+  EmitAllUpTo = 0
+  Sel = 40
+  CondSel = 40
+  AltMode = 2
   KeepGoing = TRUE
 INVARIANT Inv
 CHECK_DEADLOCK FALSE
